@@ -33,7 +33,7 @@ const (
 )
 
 func runC07(x *mc.X) {
-	if m := mc.Pick(x, "mode", []string{"product", "origin on a high port", "field value with commas", "caller's context ends as the reply arrives", "unsafe request completes while the target is being validated"}); m != "product" {
+	if m := mc.Pick(x, "mode", []string{"product", "origin on a high port", "field value with commas", "caller's context ends as the reply arrives", "unsafe request completes while the target is being validated", "site root with a query, path left empty"}); m != "product" {
 		if m == "unsafe request completes while the target is being validated" {
 			runC07Overlap(x)
 			return
@@ -241,6 +241,12 @@ func runC07Special(x *mc.X, mode string) {
 		other = base + "/reports/2024,Q3?ids=1,2"
 		locs = []string{other, "/reports/2024,Q3?ids=1,2"}
 	}
+	reqURL := target
+	if mode == "site root with a query, path left empty" { // "http://example.com?q=1" is "http://example.com/?q=1" (RFC 9110 §4.2.3)
+		target, other = base+"/?q=1", base+"/?q=2"
+		reqURL = mc.Pick(x, "request-uri", []string{base + "?q=1", target})
+		locs = []string{base + "?q=2", "?q=2", "/?q=2", other}
+	}
 	loc := mc.Pick(x, "field-value", locs)
 	w := world.New(world.Opt{})
 	defer w.Close()
@@ -258,9 +264,9 @@ func runC07Special(x *mc.X, mode string) {
 		}
 		return resp, nil
 	})
-	req, _ := http.NewRequest(method, target, nil)
+	req, _ := http.NewRequest(method, reqURL, nil)
 	ou := w.Do(req.WithContext(ctx))
-	logObs(x, fmt.Sprintf("%s %s (origin: 200 %s: %s)", method, target, field, loc), ou)
+	logObs(x, fmt.Sprintf("%s %s (origin: 200 %s: %s)", method, reqURL, field, loc), ou)
 	x.Nontrivial(mode + "/" + methodClass(method))
 	x.State(mode, method, field, loc, obsClass(ou))
 	if ou.Panic != nil || ou.Err != nil || ou.Status != 200 {
@@ -274,7 +280,7 @@ func runC07Special(x *mc.X, mode string) {
 		o := get(w, e.url)
 		logObs(x, "follow-up GET "+e.url, o)
 		if o.Err == nil && o.Panic == nil && o.Tok == e.tok && len(o.Calls) == 0 {
-			x.Failf(fmt.Sprintf("not invalidated: %s method=%s (%s)", e.what, methodClass(method), mode), "after %s %s -> 200 %s: %s, GET %s is still answered from the store without validation: %s", method, target, field, loc, e.url, o)
+			x.Failf(fmt.Sprintf("not invalidated: %s method=%s (%s)", e.what, methodClass(method), mode), "after %s %s -> 200 %s: %s, GET %s is still answered from the store without validation: %s", method, reqURL, field, loc, e.url, o)
 		}
 	}
 }
